@@ -483,6 +483,22 @@ def section_illposed():
     h0 = np.diag([0.0, 1.0, 3.0, 4.0]).astype(complex)
     h0[0, 3] = h0[3, 0] = 0.5
     expect("H0 not block diagonal", (ValueError,), lambda: block_diagonalize([h0, H1], subspace_indices=[0, 0, 1, 1]))
+    # implicit mode: the supplied vectors do not span an invariant subspace of H_0 (H_0 couples the explicit block to the complement)
+    hc = np.diag([0.0, 1.0, 3.0, 4.0, 6.0])
+    hc[0, 3] = hc[3, 0] = 0.5
+    I5 = np.eye(5)
+    for direct in (True, False):
+        for hermitian in (True, False):
+            if not hermitian and not direct:
+                continue
+            for vecs, lab in (((I5[:, [0]],), "one explicit block"), ((I5[:, [0]], I5[:, [1]]), "two explicit blocks")):
+                def thunk3(vecs=vecs, direct=direct, hermitian=hermitian):
+                    with warnings.catch_warnings():
+                        warnings.simplefilter("ignore")
+                        res = block_diagonalize([sparse.csr_array(hc), sparse.csr_array(herm(5, False))], subspace_eigenvectors=vecs,
+                                                direct_solver=direct, hermitian=hermitian, solver_options=({} if direct else {"atol": 1e-6}))
+                        return res[0][0, 0, 2]
+                expect(f"implicit mode, {lab}: H_0 couples an explicit vector to the complement (direct={direct}, hermitian={hermitian})", (ValueError,), thunk3)
     # coupled blocks share an energy: all request orders, both modes
     E = np.diag([0.0, 1.0, 1.0, 4.0]).astype(complex)
     for hermitian in (True, False):
